@@ -689,7 +689,7 @@ var Profiles = map[string]*Profile{
 	"cmds": {Name: "cmds", LongRuns: true, MaxNodes: 2, Weights: map[string]int{"line": 6, "opts": 1, "if": 1, "set": 2, "declare": 0, "jump": 1, "cmd": 8, "call": 1, "stop": 1},
 		ExprDepth: 1, Faults: 0, Ops: 36, Ctl: true, SnapOps: 1},
 	// jump graphs with tracked and untracked nodes; visit counters rendered in lines
-	"visits": {Name: "visits", LongRuns: true, MaxNodes: 4, Weights: map[string]int{"line": 6, "opts": 3, "if": 2, "set": 1, "declare": 0, "jump": 7, "cmd": 0, "call": 0, "stop": 0},
+	"visits": {Name: "visits", LongRuns: true, MaxNodes: 4, Weights: map[string]int{"line": 6, "opts": 3, "if": 2, "set": 1, "declare": 0, "jump": 7, "cmd": 0, "call": 0, "stop": 1},
 		ExprDepth: 1, Faults: 1, Ops: 40, Untracked: true, SnapOps: 2, Runners: 2, Visits: true},
 	// deep expressions of every type with probes
 	// (statements are re-evaluated: nodes are re-entered by jumps and runners rewound by restores, so an evaluation that
